@@ -1,4 +1,378 @@
-//! more sweeps (stub)
+//! C07: the configuration lattice (engine B histories under every configuration).
 #![allow(dead_code)]
-use crate::pool::WorkerIo;
-pub fn worker_job(_kind: u8, _payload: &[u8], _io: &mut WorkerIo) -> Vec<u8> { Vec::new() }
+
+use crate::engine_b::*;
+use crate::pool::{JobResult, WorkerIo};
+use crate::props_a::Ctx;
+use crate::report::{Replay, Violation};
+use crate::subject::*;
+use crate::util::{Buf, Rd, J};
+
+pub const JOB_C07_RUN: u8 = 50;
+
+fn c07_run(bw: &mut BWorker, payload: &[u8], io: &mut WorkerIo) -> Vec<u8> {
+    let mut r = Rd::new(payload);
+    let p = Params::dec(&mut r);
+    let n = r.u32();
+    let seqs: Vec<Vec<u8>> = (0..n).map(|_| r.vec()).collect();
+    let saved = bw.cfg.clone();
+    bw.cfg.maps[0].params = p;
+    let mut out = BOutcome::default();
+    for (i, s) in seqs.iter().enumerate() {
+        io.progress(i as u64);
+        out.sequences += 1;
+        bw.cfg.depth = s.len() as u8;
+        if let Some((pos, msg)) = bw.run_sequence(s, &mut out, None) {
+            let kind = if msg.contains("panicked") {
+                "panic"
+            } else if msg.contains("returned Err") {
+                "err"
+            } else {
+                "wrong-result"
+            };
+            out.failure = Some((s.clone(), pos, kind.to_string(), msg));
+            break;
+        }
+    }
+    bw.cfg = saved;
+    out.enc()
+}
+
+pub fn table_params() -> Vec<HtP> {
+    let mut v = Vec::new();
+    for x in [0u64, 1, 2, 3, 4, 5, 7, 8, 9, 16, 64, 100, 128, 1000, 65536] {
+        v.push(HtP::Buckets(x));
+    }
+    for c in [1u64, 4, 7, 8, 9, 100, 1000, 65536] {
+        v.push(HtP::Capacity(c));
+    }
+    v.push(HtP::Default);
+    v
+}
+
+pub fn buffer_params() -> Vec<BufP> {
+    vec![BufP::Auto, BufP::PerMille(1000), BufP::PerMille(500), BufP::PerMille(1), BufP::Size(0), BufP::Size(131072), BufP::Size(262144), BufP::Size(1048576)]
+}
+
+/// the part of a configuration that deviates from the default, as a short stable label
+pub fn deviation(p: &Params) -> String {
+    let d = Params::defaults();
+    let mut v = Vec::new();
+    if p.ht != HtP::Buckets(64) {
+        v.push(format!("ht={}", p.ht.label()));
+    }
+    if p.val != d.val {
+        v.push(format!("val={}", p.val.label()));
+    }
+    if p.key != d.key {
+        v.push(format!("key={}", p.key.label()));
+    }
+    if p.htx != d.htx {
+        v.push(format!("htx={}", p.htx.label()));
+    }
+    if v.is_empty() {
+        "default".into()
+    } else {
+        v.join(",")
+    }
+}
+
+/// finding key of a failure under configuration p
+fn c07_key(p: &Params, kind: &str) -> String {
+    let mut small: Vec<&str> = Vec::new();
+    for (name, b) in [("val", p.val), ("key", p.key), ("htx", p.htx)] {
+        if let BufP::PerMille(x) = b {
+            if x < 1000 {
+                small.push(name);
+            }
+        }
+    }
+    if !small.is_empty() && (kind == "hang" || kind == "abort") {
+        return format!("permille-below-1000:{}:{kind}", small.join("+"));
+    }
+    format!("cfg[{}]:{kind}", deviation(p))
+}
+
+pub fn c07(tier: &str, seed: u64) -> i32 {
+    let mut ctx = Ctx::new("C07", tier, seed, "model_checking");
+    let thorough = ctx.thorough();
+    // 3 keys (one of 60000 bytes), values of 10 / 100000 / 300000 bytes: .val and .key exceed a
+    // two-chunk buffer, so eviction with dirty write-back happens inside a history
+    let mut m0 = std_map(KtId::Bytes, 64, 2, 9, seed, "m");
+    m0.keys.push(crate::alphabet::keys_in_bucket(KtId::Bytes, 64, 5, 1, 60_000, seed, &[]).pop().unwrap());
+    let mut letters = Vec::new();
+    for k in 0..3u8 {
+        for v in 0..3u8 {
+            letters.push(Letter { kind: L_PUT, map: 0, handle: H_FIRST, key: k, val: v });
+        }
+        letters.push(Letter { kind: L_DEL, map: 0, handle: H_FIRST, key: k, val: 0 });
+        letters.push(Letter { kind: L_GET, map: 0, handle: H_FIRST, key: k, val: 0 });
+    }
+    let nl = letters.len() as u8;
+    let reopen = vec![Params::defaults(), Params { ht: HtP::Buckets(4096), val: BufP::Size(262144), key: BufP::Auto, htx: BufP::Size(1048576) }, Params { ht: HtP::Capacity(1), val: BufP::PerMille(1000), key: BufP::Size(524288), htx: BufP::Auto }];
+    let cfg = BCfg { prop: "C07".into(), maps: vec![m0], val_lens: vec![10, 100_000, 300_000], letters, depth: 3, flags: F_DECODE_END | F_REOPEN_END, seed, reopen, other_params: Params::defaults() };
+    ctx.pool.reinit(vec![{
+        let mut b = Buf::new();
+        b.u8(JOB_B_CONFIG).bytes(&cfg.enc());
+        b.0
+    }]);
+    ctx.pool.watchdog = std::time::Duration::from_secs(8);
+    // history sets
+    let mut h1: Vec<Vec<u8>> = Vec::new();
+    let mut h2: Vec<Vec<u8>> = Vec::new();
+    let mut h3: Vec<Vec<u8>> = Vec::new();
+    for a in 0..nl {
+        h1.push(vec![a]);
+        for b in 0..nl {
+            h2.push(vec![a, b]);
+            for c in 0..nl {
+                h3.push(vec![a, b, c]);
+            }
+        }
+    }
+    // letters: key k -> 5k+{0,1,2}=put v, 5k+3=del, 5k+4=get
+    let put = |k: u8, v: u8| 5 * k + v;
+    let del = |k: u8| 5 * k + 3;
+    let get = |k: u8| 5 * k + 4;
+    let hfix: Vec<Vec<u8>> = vec![
+        vec![put(0, 2), put(1, 2), get(0), get(1), put(2, 0), get(2), del(0), get(1)],
+        vec![put(0, 0), put(1, 1), put(2, 2), put(0, 2), put(1, 0), get(0), get(1), get(2), del(2), get(0)],
+        vec![put(2, 2), put(2, 0), put(2, 1), del(2), put(0, 1), put(2, 1), get(2), get(0)],
+        vec![put(0, 1), del(0), put(1, 1), put(0, 2), del(1), put(1, 2), get(0), get(1), del(0), del(1), put(2, 0), get(2)],
+        vec![put(1, 2), put(1, 2), put(1, 1), put(1, 2), get(1), put(0, 2), get(1), get(0)],
+        vec![put(0, 0), put(1, 0), put(2, 0), get(0), get(1), get(2), del(0), del(1), del(2), get(0)],
+    ];
+    let d = Params { ht: HtP::Buckets(64), ..Params::defaults() };
+    // configurations
+    let mut singles: Vec<Params> = vec![d];
+    for t in table_params() {
+        singles.push(Params { ht: t, ..d });
+    }
+    for b in buffer_params() {
+        singles.push(Params { val: b, ..d });
+        singles.push(Params { key: b, ..d });
+        singles.push(Params { htx: b, ..d });
+    }
+    singles.sort();
+    singles.dedup();
+    let mut pairs: Vec<Params> = Vec::new();
+    for t in table_params() {
+        for b in buffer_params() {
+            pairs.push(Params { ht: t, val: b, ..d });
+            pairs.push(Params { ht: t, key: b, ..d });
+            pairs.push(Params { ht: t, htx: b, ..d });
+        }
+    }
+    pairs.sort();
+    pairs.dedup();
+    pairs.retain(|p| !singles.contains(p));
+    // configurations with a PerMille(<1000) buffer fall into a known finding of the dependency (see
+    // KNOWN_FINDINGS.txt); each failing run costs a watchdog period, so that class is not multiplied:
+    // all its single-coordinate members always, its pairs only in the thorough tier
+    let in_pm_class = |p: &Params| [p.val, p.key, p.htx].iter().any(|b| matches!(b, BufP::PerMille(x) if *x < 1000));
+    let n_pairs_all = pairs.len();
+    if !thorough {
+        pairs.retain(|p| !in_pm_class(p));
+    }
+    let pm_pairs_skipped = n_pairs_all - pairs.len();
+    let mut product: Vec<Params> = Vec::new();
+    if thorough {
+        for t in table_params() {
+            for a in buffer_params() {
+                for b in buffer_params() {
+                    for c in buffer_params() {
+                        product.push(Params { ht: t, val: a, key: b, htx: c });
+                    }
+                }
+            }
+        }
+        product.retain(|p| !singles.contains(p) && !pairs.contains(p) && !in_pm_class(p));
+    }
+    // job list: (configuration, histories)
+    let mut jobs: Vec<(Params, Vec<Vec<u8>>, &'static str)> = Vec::new();
+    let chunked = |hs: &Vec<Vec<u8>>, n: usize| -> Vec<Vec<Vec<u8>>> { hs.chunks(n).map(|c| c.to_vec()).collect() };
+    for p in &singles {
+        let big_table = matches!(p.ht, HtP::Default);
+        if big_table {
+            jobs.push((*p, hfix[..if thorough { 6 } else { 2 }].to_vec(), "fixed histories"));
+            continue;
+        }
+        if thorough {
+            for c in chunked(&h3, 600) {
+                jobs.push((*p, c, "all depth-3 sequences"));
+            }
+        } else {
+            jobs.push((*p, h2.clone(), "all depth-2 sequences"));
+        }
+        jobs.push((*p, hfix.clone(), "fixed histories"));
+    }
+    if !thorough {
+        for c in chunked(&h3, 250) {
+            jobs.push((d, c, "all depth-3 sequences"));
+        }
+    }
+    for p in &pairs {
+        if matches!(p.ht, HtP::Default) {
+            if thorough {
+                jobs.push((*p, hfix[..2].to_vec(), "fixed histories"));
+            }
+            continue;
+        }
+        if thorough && in_pm_class(p) {
+            jobs.push((*p, hfix[..2].to_vec(), "fixed histories"));
+        } else if thorough {
+            jobs.push((*p, h2.clone(), "all depth-2 sequences"));
+            jobs.push((*p, hfix.clone(), "fixed histories"));
+        } else {
+            jobs.push((*p, hfix[..3].to_vec(), "fixed histories"));
+            jobs.push((*p, h1.clone(), "all depth-1 sequences"));
+        }
+    }
+    for p in &product {
+        if matches!(p.ht, HtP::Default) {
+            continue;
+        }
+        jobs.push((*p, hfix[..4].to_vec(), "fixed histories"));
+    }
+    let payloads: Vec<Vec<u8>> = jobs
+        .iter()
+        .map(|(p, hs, _)| {
+            let mut b = Buf::new();
+            b.u8(JOB_C07_RUN);
+            p.enc(&mut b);
+            b.u32(hs.len() as u32);
+            for h in hs {
+                b.bytes(h);
+            }
+            b.0
+        })
+        .collect();
+    let t0 = ctx.run.elapsed();
+    let limit = if thorough { 900.0 } else { 45.0 };
+    let mut configs_seen: std::collections::BTreeSet<Params> = Default::default();
+    let mut complete = true;
+    let mut jdone = 0usize;
+    let chunk = ctx.pool.size() * 4;
+    let mut bad_configs: std::collections::BTreeSet<Params> = Default::default();
+    let mut lo = 0usize;
+    while lo < jobs.len() {
+        if ctx.run.elapsed() - t0 > limit {
+            complete = false;
+            break;
+        }
+        let hi = (lo + chunk).min(jobs.len());
+        // configurations already known to fail are not run again (each failure costs a watchdog period)
+        let idxs: Vec<usize> = (lo..hi).filter(|i| !bad_configs.contains(&jobs[*i].0)).collect();
+        let batch: Vec<Vec<u8>> = idxs.iter().map(|i| payloads[*i].clone()).collect();
+        let results = ctx.pool.map(&batch, |i| i);
+        for (bi, res) in results.into_iter().enumerate() {
+            let ji = idxs[bi];
+            let (p, hs, _what) = &jobs[ji];
+            jdone += 1;
+            configs_seen.insert(*p);
+            let mut report = |ctx: &mut Ctx, key: String, msg: String, seq: &[u8], pos: usize| {
+                let mut case = Buf::new();
+                p.enc(&mut case);
+                case.bytes(seq);
+                let mut story = vec![format!("configuration: {}", p.label())];
+                let mut c2 = cfg.clone();
+                c2.maps[0].params = *p;
+                story.extend(seq_story(&c2, seq, pos));
+                story.push(format!("observed: {msg}"));
+                ctx.run.violation(Violation { prop: "C07".into(), key, message: format!("under {}: {msg}", p.label()), replay: Replay { engine: "C07".into(), config: cfg.enc(), case: case.0, story } });
+            };
+            match res {
+                JobResult::Done(b) => {
+                    let o = BOutcome::dec(&b);
+                    ctx.states += o.sequences;
+                    ctx.transitions += o.calls;
+                    if let Some((seq, pos, kind, msg)) = o.failure {
+                        bad_configs.insert(*p);
+                        report(&mut ctx, c07_key(p, &kind), msg, &seq, pos);
+                    }
+                }
+                JobResult::Crashed { progress, how } => {
+                    bad_configs.insert(*p);
+                    let kind = if how.contains("hang") { "hang" } else { "abort" };
+                    let key = c07_key(p, kind);
+                    let si = progress.unwrap_or(0) as usize;
+                    let seq = hs.get(si).cloned().unwrap_or_default();
+                    if !ctx.run.violations.iter().any(|v| v.key == key) {
+                        // confirm alone
+                        let mut b = Buf::new();
+                        b.u8(JOB_C07_RUN);
+                        p.enc(&mut b);
+                        b.u32(1).bytes(&seq);
+                        match ctx.pool.run_isolated(&b.0) {
+                            JobResult::Crashed { how: how2, .. } => {
+                                report(&mut ctx, key, format!("the history does not return normally: {how}; confirmed alone in a fresh process: {how2}"), &seq, seq.len());
+                            }
+                            JobResult::Done(_) => crate::report::machinery_failure(&format!("C07: a crash under {} did not reproduce in isolation ({how})", p.label())),
+                        }
+                    } else {
+                        ctx.run.add("further_crashes_with_a_reported_key", 1);
+                    }
+                }
+            }
+        }
+        lo = hi;
+        if ctx.run.too_many() {
+            complete = false;
+            break;
+        }
+    }
+    eprintln!("[C07] jobs={}/{} configurations={} sequences={} calls={} {:.1}s", jdone, jobs.len(), configs_seen.len(), ctx.states, ctx.transitions, ctx.run.elapsed() - t0);
+    ctx.run.add("configurations", configs_seen.len() as i64);
+    ctx.run.add("configurations_failing", bad_configs.len() as i64);
+    ctx.runs.push(J::obj(vec![
+        ("single_coordinate_configurations", J::Int(singles.len() as i64)),
+        ("pair_configurations", J::Int(pairs.len() as i64)),
+        ("full_product_configurations", J::Int(product.len() as i64)),
+        ("configurations_run", J::Int(configs_seen.len() as i64)),
+        ("history_sets", J::s(&format!("depth-1: {}, depth-2: {}, depth-3: {}, fixed longer histories: {}", h1.len(), h2.len(), h3.len(), hfix.len()))),
+        ("letters", J::Arr(cfg.letters.iter().map(|l| J::s(&cfg.label(l))).collect())),
+        ("reopen_parameter_sets", J::Arr(cfg.reopen.iter().map(|p| J::s(&p.label())).collect())),
+        ("pairs_in_the_known_finding_class_not_run_in_this_tier", J::Int(pm_pairs_skipped as i64)),
+        ("jobs_done", J::Int(jdone as i64)),
+        ("jobs_total", J::Int(jobs.len() as i64)),
+    ]));
+    for p in singles.iter().step_by(9).chain(pairs.iter().step_by(97)) {
+        ctx.run.sample(J::s(&p.label()));
+    }
+    if !complete {
+        ctx.all_closed = false;
+    }
+    let rule = "configuration lattice x bounded-exhaustive histories on the real code (engine B): table parameter in {BucketsSize 0,1,2,3,4,5,7,8,9,16,64,100,128,1000,65536; Capacity 1,4,7,8,9,100,1000,65536; Default} x buffer parameter per file (val,key,htx) in {Auto, PerMille 1000/500/1, Size 0/131072/262144/1048576}; quick: every single-coordinate deviation x all depth-2 sequences + fixed longer histories, every (table x one buffer) pair x depth-1 + fixed, default x all depth-3; thorough: singles x depth-3, pairs x depth-2, the full product 24x8^3 x fixed histories. letters: put/delete/get on 3 keys (one of 60000 bytes) with values of 10/100000/300000 bytes, so eviction with write-back happens inside a history. oracle: every call equals the one BTreeMap model under every configuration, the files decode to the model, and re-opening under three other configurations shows the same contents. non-trivial = configurations run (each distinct)";
+    ctx.finish_model_checking(rule, &["configurations"])
+}
+
+pub fn replay_c07(config: &[u8], case: &[u8]) -> i32 {
+    let cfg = BCfg::dec(config);
+    let mut r = Rd::new(case);
+    let p = Params::dec(&mut r);
+    let seq = r.vec();
+    println!("replay C07 under {}", p.label());
+    let mut bw = BWorker::new(cfg);
+    let mut b = Buf::new();
+    p.enc(&mut b);
+    b.u32(1).bytes(&seq);
+    let mut io = WorkerIo::sink();
+    let o = BOutcome::dec(&c07_run(&mut bw, &b.0, &mut io));
+    match o.failure {
+        Some((_, pos, key, msg)) => {
+            println!("REPLAY VIOLATION at call {} [{key}]: {msg}", pos + 1);
+            1
+        }
+        None => {
+            println!("REPLAY: no violation reproduced");
+            0
+        }
+    }
+}
+
+pub fn worker_job(kind: u8, payload: &[u8], io: &mut WorkerIo) -> Vec<u8> {
+    match kind {
+        JOB_C07_RUN => with_bworker(|bw| c07_run(bw, payload, io)),
+        _ => crate::props_f::worker_job(kind, payload, io),
+    }
+}
